@@ -25,6 +25,12 @@ CHECKS = {
          "A template that is unexpectedly accepted is only counted; no listed property promises rejection.", "deterministic simulation + per-state enumeration of a failing-call catalogue"),
  "C02": ("exploration", "Set/get/unset over the full setter vocabulary and deep-sliver reconstruction are issued as operations inside seeded topology histories. Weakest kind of simulation use: the property is a function of its input; the simulation contributes state diversity (containment shapes, two graphs per store) only.", "4/C02",
          "Value generators cover the names listed in the evidence; zero/false/empty values belong to C03.", "deterministic simulation (state diversity only) + field-wise round-trip oracle"),
+ "C10": ("exploration", "validate() is a stateful operation of seeded experiment-topology histories (it records sites) interleaved with edits; its outcome is compared two-sidedly with a reference over constraint tables pinned in the checker, plus the connect-time guard-rail. The property itself is a function of the topology: the simulation contributes state diversity and the interleaving with the side effect.", "4/C10",
+         "Pinned copies of ServiceConstraints/NodeConstraints: a silent edit of the tables shows up as a disagreement.", "deterministic simulation (state diversity) + two-sided reference oracle over pinned tables"),
+ "C11": ("exploration", "Attribute and accounting collection are operations inside seeded slice histories; expectations are computed from an order-free abstract state so two histories reaching the same slice must give the same attributes; topology vs serialized-model collection compared. Sampling.", "4/C11",
+         "The library's own definition of 'in slice' is pinned and stated.", "deterministic simulation: history/order variation + order-free tally oracle"),
+ "C17": ("exploration", "Two versions of an element are two checkpoints of one seeded edit history; the sliver diff in both directions is compared with a subtraction of the two abstract states. Weakest kind: a function of two slivers; simulation contributes the edit histories.", "4/C17",
+         "Matching by name; SUB_INTERFACES judged where the library judges it.", "deterministic simulation (checkpointed histories) + reference diff"),
 }
 checks = []
 for pid,(cat,text,ref,note,tech) in sorted(CHECKS.items()):
